@@ -55,7 +55,8 @@ TRUSTED_EXTRA = [
     "modelled, not verified: np.random.normal draws, np.linalg.qr (its Q factor is an input; orthonormality of its columns is a "
     "hypothesis of the norm corollaries), np.linalg.norm (oracle input; unit length of dirn/norm is a hypothesis)",
     "NOT proved: condition number of the scaled interpolation matrix < 1e4 (singular values) — checked numerically by the search only",
-    "not modelled: the projection branch of initialise_coordinate_directions (controller.py:154-252), init.run_in_parallel, NaN inputs",
+    "not modelled: the projection branch of initialise_coordinate_directions (`if self.model.projections:`), init.run_in_parallel, "
+    "scaling_within_bounds, NaN inputs; signed zeros are identified in the bit-exact comparison",
 ]
 EXPLANATION = ("coordinate initialisation: step table proved feasible / well separated / affinely independent in exact arithmetic "
                "for every x0 placement and every outcome of the objective-dependent swap; generators: count and bounds for any "
@@ -346,7 +347,7 @@ def correspondence(ctx):
 
     # (a) coordinate initialisation
     ncase = ctx.scale(1500, 8000)
-    tagcount, skipped, swaps, bigk = {}, 0, 0, 0
+    tagcount, skipped, gen_rejected, bigk = {}, 0, 0, 0
     fixed = fixed_placements()
     for i in range(-len(fixed), ncase):
         rng = np.random.default_rng([ctx.seed, 1401, i + len(fixed)])
@@ -406,7 +407,7 @@ def correspondence(ctx):
                 want.append("ok " + show_pts(D))
                 kinds["odirs"] += 1
         except AssertionError:
-            skipped += 1
+            gen_rejected += 1      # input refused by the asserts of util.py (only band cases can be)
             continue
         meta.append(("gen", i, c))
         ctx.seen(("c14gen", which, c["n"], c["num"], c["pattern"], c["delta"], tuple(c["lower"]), tuple(c["upper"])))
@@ -438,7 +439,7 @@ def correspondence(ctx):
     ctx.cov["correspondence_initdirs"] = {"cases": ninit, "npt_gt_2n+1": int(bigk), "swapped_coordinates": nswap,
                                           "placement_tags": tagcount, "mismatches": mism["cinit"]}
     ctx.cov["correspondence_randdirs"] = {"calls": kinds, "orthog_columns_by_block": blocks, "mismatches": mism["gen"]}
-    ctx.cov["correspondence_skipped"] = skipped
+    ctx.cov["correspondence_skipped"] = {"solve_rejected_or_early_exit_or_alarm": skipped, "generator_input_refused_by_asserts": gen_rejected}
 
 
 def first_diff(got, want):
@@ -587,7 +588,7 @@ def search(ctx):
         for sig, what in (bad or []):
             report(sig, what, {"kind": "init", "seed": [ctx.seed, 1411, boost, i + len(fixed)], "fixed_index": (i + len(fixed) if i < 0 else None),
                                "style": i % 2, "stress": bool(i % 5 == 4), "case": jsonable(case)})
-    ctx.cov["search_init"] = {"runs": ncase, "status": status, "worst_cond_interpolation_matrix": worst_cond}
+    ctx.cov["search_init"] = {"runs": ncase + len(fixed), "status": status, "worst_cond_interpolation_matrix": worst_cond}
 
     # the minimal documented call of the recorded finding, always exercised
     D = U.random_orthog_directions_within_bounds(2, 1.0, np.array([0.0]), np.array([3.0]))
